@@ -16,6 +16,8 @@ FnCnaryChrom     compare_chrom (nested), the WHOLE function: which shift goes to
 FnCnaryCenter    center_all after the selection: `if cnarr:` / the by_chrom dispatch / `shift = -estimator(values)` / the log line /
                  `self.data["log2"] += shift`, per row; the estimator is a function-typed input, the two candidate inputs of
                  the estimator are 1-d arrays (LQ)                            (C15_source_center_all)
+FnCnarySelection center_all's selection `(self.drop_low_coverage(..) if skip_low else self).autosomes(..)`, tables as opaque ids, the
+                 method `.autosomes` a function-typed input                   (C15_source_center_selection)
 FnCnaryEstimator center_all's estimator dispatch: the dict display `est_funcs`, `isinstance(estimator, str)` on a str-or-callable
                  parameter, the lookup, and the test that decides between lookup and ValueError (located with `ast`)
                                                     (C15_source_estimator_name / _callable / _known)
@@ -55,6 +57,8 @@ translator refuses the module, which the check reports as a broken tie):
                   where Q is expected)
   FnCnaryCenter   `shift = -estimator(values)` -> `estimator(values)` KILLED ; `if by_chrom:` -> `if not by_chrom:` KILLED ;
                   `self.data["log2"] += shift` -> `-=` KILLED ; `values = cnarr["log2"]` -> `self["log2"]` REFUSED
+  FnCnarySelection  `if skip_low` -> `if not skip_low` KILLED ; the dropped table replaced by `self` KILLED ; `.autosomes()` without the
+                  build REFUSED (called with other arguments than its declared type)
   FnCnaryEstimator  "mode" mapped to biweight_location KILLED ; key "biweight" renamed "tukey" KILLED ; `if estimator in
                   est_funcs` -> `not in` KILLED (through fn_estimator_known; the lookup alone survives it, an error path being
                   outside a translated body) ; `est_funcs[estimator]` -> `est_funcs["median"]` KILLED
@@ -207,6 +211,17 @@ MODULES = {
                       'chrom_estimates'),
                      ("cnarr['log2']", 'LQ', 'selection_log2'), ("self.data['log2']", 'Q', 'log2_')],
              returns=["self.data['log2']"], ret='Q'),
+    ]),
+    # center_all, the selection `cnarr = (self.drop_low_coverage(verbose=verbose) if skip_low else self).autosomes(
+    # diploid_parx_genome=diploid_parx_genome)`: tables (and the build name, passed through) are opaque ids, `.autosomes` is a
+    # function-typed input (the method as a function of the table it is called on)
+    'FnCnarySelection': ('cnvlib/cnary.py', [
+        dict(name='CopyNumArray.center_all', coq='fn_center_selection',
+             py_params=['self', 'estimator', 'by_chrom', 'skip_low', 'verbose', 'diploid_parx_genome'],
+             fragment=dict(first='cnarr = (', last='cnarr = ('),
+             params=[('self', 'Z', 'self_id'), ('self.drop_low_coverage(verbose=verbose)', 'Z', 'dropped_id'), ('skip_low', 'B'),
+                     ('diploid_parx_genome', 'Z', 'build_id'), ('.autosomes', 'F:Z,diploid_parx_genome=Z>Z', 'autosomes_of')],
+             returns=['cnarr'], ret='Z'),
     ]),
     # center_all, the estimator dispatch: the table `est_funcs = {"mean": ..., "median": ..., "mode": ..., "biweight": ...}`
     # (a dict display local, read only by `in` and `[key]`), `if isinstance(estimator, str):` on a parameter that is a str
